@@ -1079,10 +1079,10 @@ class CE:
             raise Unsupported(f"resource path method {name}")
         if isinstance(fn, tuple) and fn and fn[0] == "pymethod":
             o, name = fn[1], fn[2]
-            allowed = {str: {"split", "replace", "startswith", "endswith", "lstrip", "rstrip", "strip", "join", "format", "count", "index", "find", "lower", "upper", "zfill", "encode", "isdigit", "isalpha", "partition", "rpartition", "splitlines", "removeprefix", "removesuffix", "translate"},
-                       list: {"append", "extend", "copy", "index", "count", "reverse", "pop", "insert", "sort"},
-                       dict: {"get", "items", "keys", "values", "copy", "update", "setdefault"},
-                       tuple: {"index", "count"}, int: {"bit_count", "bit_length", "to_bytes"}, set: {"add", "union"},
+            allowed = {str: {"__getitem__", "__contains__", "split", "replace", "startswith", "endswith", "lstrip", "rstrip", "strip", "join", "format", "count", "index", "find", "lower", "upper", "zfill", "encode", "isdigit", "isalpha", "partition", "rpartition", "splitlines", "removeprefix", "removesuffix", "translate"},
+                       list: {"append", "extend", "copy", "index", "count", "reverse", "pop", "insert", "sort", "__getitem__", "__len__", "__contains__"},
+                       dict: {"get", "items", "keys", "values", "copy", "update", "setdefault", "__getitem__", "__contains__"},
+                       tuple: {"index", "count", "__getitem__", "__len__", "__contains__"}, int: {"bit_count", "bit_length", "to_bytes"}, set: {"add", "union"},
                        re.Pattern: {"match", "fullmatch", "search", "findall", "finditer", "split", "sub"},
                        re.Match: {"group", "groups", "groupdict", "start", "end", "span"}}
             if isinstance(o, re.Pattern) and not all(isinstance(a, (str, int)) for a in list(args) + list(kwargs.values())):
@@ -1209,6 +1209,15 @@ class CE:
                     if len(args) == 3:
                         return args[2]
                     raise
+            if name == "setattr" and len(args) == 3 and isinstance(args[1], str) and isinstance(args[0], Instance):
+                ps = self.prog.find_property(args[0].cls, args[1], setter=True)
+                if ps is not None:
+                    self.call_func(ps, [args[0], args[2]], {})
+                else:
+                    args[0].attrs[args[1]] = args[2]
+                return None
+            if name == "hasattr" and len(args) == 2 and isinstance(args[1], str) and isinstance(args[0], Instance):
+                return args[1] in args[0].attrs or self.prog.find_method(args[0].cls, args[1]) is not None or self.prog.find_property(args[0].cls, args[1]) is not None
             if name == "type" and len(args) == 1:
                 v = args[0]
                 if isinstance(v, Instance):
@@ -1271,6 +1280,14 @@ class CE:
         if dotted.startswith("os.path.") and name in ("split", "join", "basename", "dirname", "splitext", "normpath") and all(isinstance(a, str) for a in args) and not kwargs:
             import posixpath
             return getattr(posixpath, name)(*args)
+        if dotted.startswith("operator.") and name in ("index", "add", "sub", "mul", "xor", "and_", "or_", "eq", "ne", "lt", "le", "gt", "ge", "not_", "neg", "getitem", "contains", "floordiv", "mod", "lshift", "rshift", "truth"):
+            import operator as _op
+            if all(isinstance(a, (int, bool, str, list, tuple, dict)) for a in args) and not kwargs:
+                try:
+                    return getattr(_op, name)(*args)
+                except (TypeError, ValueError, IndexError, KeyError, ZeroDivisionError) as ex:
+                    raise CERaise(type(ex).__name__, str(ex))
+            raise Unsupported(f"{dotted} on modelled objects")
         if dotted == "logging.getLogger":
             return ("logger",)
         if dotted in ("re.compile", "re.match", "re.fullmatch", "re.search", "re.findall", "re.finditer", "re.split", "re.sub", "re.escape"):
